@@ -1,13 +1,17 @@
 #!/usr/bin/env python3
 """Copies what a seeding sub-agent left in /tmp/seed/<id>-out into /verif/seeded/<id>-<i>/."""
 import json, os, shutil, sys
-for pid in sys.argv[1:]:
-    src = "/tmp/seed/%s-out" % pid
-    for i in ("1", "2"):
+root, tag = "/tmp/seed", ""
+args = sys.argv[1:]
+if args and args[0] == "--round2":
+    root, tag, args = "/tmp/seed2", "r2", args[1:]
+for pid in args:
+    src = "%s/%s-out" % (root, pid)
+    for i in ("1", "2", "3"):
         p = os.path.join(src, "patch%s.diff" % i)
         if not os.path.exists(p):
             continue
-        d = "/verif/seeded/%s-%s" % (pid, i)
+        d = "/verif/seeded/%s-%s%s" % (pid, tag, i)
         os.makedirs(d, exist_ok=True)
         shutil.copy(p, os.path.join(d, "patch.diff"))
         shutil.copy(os.path.join(src, "demo%s_test.go" % i), os.path.join(d, "demo_test.go"))
